@@ -90,6 +90,28 @@ func RaceWorker(path string) {
 }
 
 func detDocs(g *gen.G) []any {
+	if g.P(0.06) {
+		// the LARGE regime: many documents in one stream, or dozens of selected subtrees
+		// under one map (several per key) - sizes at which an implementation may switch
+		// to a parallel or an unstable algorithm
+		if g.P(0.5) {
+			n := 16 + g.N(30)
+			ds := []any{}
+			for i := 0; i < n; i++ {
+				ds = append(ds, map[string]any{"n": i, "pad": g.Pick(g.Strs), "sub": map[string]any{"k": g.N(5)}})
+			}
+			return ds
+		}
+		m := map[string]any{}
+		for _, k := range []string{"alpha", "bravo", "charlie", "delta", "echo"} {
+			mm := map[string]any{}
+			for j := 0; j < 4+g.N(4); j++ {
+				mm[fmt.Sprintf("s%d", j)] = map[string]any{"$output": true, "id": fmt.Sprintf("%s-%d", k, j)}
+			}
+			m[k] = mm
+		}
+		return []any{m}
+	}
 	switch g.N(9) {
 	case 0: // a wide map through $encode transforms that iterate maps
 		m := map[string]any{}
